@@ -8,9 +8,9 @@
 // trace for the Lean driver (which checks every step is enabled in the protocol model),
 // oracle.txt the failures of the property's oracles on the real run.
 //
-// Cases 0..6 are the scripted corpus (script.go), cases 7..9 the epoch cases (epoch.go: seven nodes,
+// Cases 0..8 are the scripted corpus (script.go), cases 9..11 the epoch cases (epoch.go: seven nodes,
 // the validator set changes at epoch boundaries by ValidatorsHistory and by votes; tied to
-// Model/DbftEpoch.lean), the random profiles start at case 10.
+// Model/DbftEpoch.lean), the random profiles start at case 12.
 package main
 
 import (
